@@ -54,104 +54,76 @@ MinI(a, b) == IF a <= b THEN a ELSE b
 
 \* ---- generic (schema-less) skipping -------------------------------------
 (***************************************************************************)
-(* Skip(wt, b, i, d) = number of bytes the value of wire type wt starting  *)
-(* at b[i] occupies, or a negative code:                                   *)
+(* SkipD(wt, b, i, d) = <<n, depth>>: the number n of bytes the value of   *)
+(* wire type wt starting at b[i] occupies and its nesting depth (scalars   *)
+(* and strings 0, a struct 1 + deepest field, a container 1 + deepest      *)
+(* element), or n negative:                                                *)
 (*   -1  malformed (truncated, negative size, illegal type code)           *)
 (*   -2  nesting deeper than d levels                                      *)
-(* d counts the value itself: Skip of a scalar needs d >= 1.  This is the  *)
+(* d counts the value itself: a scalar needs d >= 1.  This is the          *)
 (* well-formedness grammar of one value.  Containers whose count is 0 may  *)
 (* carry any element type code (no element is ever read).                  *)
 (***************************************************************************)
-RECURSIVE Skip(_, _, _, _), SkipElems(_, _, _, _, _, _), SkipPairs(_, _, _, _, _, _, _),
-          SkipFields(_, _, _, _)
+RECURSIVE SkipD(_, _, _, _), SkipElems(_, _, _, _, _, _, _), SkipPairs(_, _, _, _, _, _, _, _),
+          SkipFields(_, _, _, _, _)
 
 SkipStr(b, i) ==
   IF Remain(b, i) < 4 THEN -1
   ELSE LET l == S32(b, i) IN
        IF l < 0 \/ l > Remain(b, i) - 4 THEN -1 ELSE 4 + l
 
-\* n elements of wire type wt from position i; acc = bytes consumed so far
-SkipElems(wt, b, i, n, d, acc) ==
-  IF n = 0 THEN acc
-  ELSE LET r == Skip(wt, b, i, d) IN
-       IF r < 0 THEN r ELSE SkipElems(wt, b, i + r, n - 1, d, acc + r)
+\* n elements of wire type wt from position i; acc = bytes consumed so far, md = max depth
+SkipElems(wt, b, i, n, d, acc, md) ==
+  IF n = 0 THEN <<acc, md>>
+  ELSE LET r == SkipD(wt, b, i, d) IN
+       IF r[1] < 0 THEN r ELSE SkipElems(wt, b, i + r[1], n - 1, d, acc + r[1], MaxI(md, r[2]))
 
-SkipPairs(kt, vt, b, i, n, d, acc) ==
-  IF n = 0 THEN acc
-  ELSE LET rk == Skip(kt, b, i, d) IN
-       IF rk < 0 THEN rk
-       ELSE LET rv == Skip(vt, b, i + rk, d) IN
-            IF rv < 0 THEN rv
-            ELSE SkipPairs(kt, vt, b, i + rk + rv, n - 1, d, acc + rk + rv)
+SkipPairs(kt, vt, b, i, n, d, acc, md) ==
+  IF n = 0 THEN <<acc, md>>
+  ELSE LET rk == SkipD(kt, b, i, d) IN
+       IF rk[1] < 0 THEN rk
+       ELSE LET rv == SkipD(vt, b, i + rk[1], d) IN
+            IF rv[1] < 0 THEN rv
+            ELSE SkipPairs(kt, vt, b, i + rk[1] + rv[1], n - 1, d, acc + rk[1] + rv[1],
+                           MaxI(md, MaxI(rk[2], rv[2])))
 
-\* fields of a struct from position i until STOP; acc = bytes consumed so far
-SkipFields(b, i, d, acc) ==
-  IF Remain(b, i) < 1 THEN -1
-  ELSE IF b[i] = TSTOP THEN acc + 1
-  ELSE IF Remain(b, i) < 3 THEN -1
-  ELSE LET r == Skip(b[i], b, i + 3, d) IN
-       IF r < 0 THEN r ELSE SkipFields(b, i + 3 + r, d, acc + 3 + r)
+\* fields of a struct from position i until STOP
+SkipFields(b, i, d, acc, md) ==
+  IF Remain(b, i) < 1 THEN <<-1, 0>>
+  ELSE IF b[i] = TSTOP THEN <<acc + 1, md>>
+  ELSE IF Remain(b, i) < 3 THEN <<-1, 0>>
+  ELSE LET r == SkipD(b[i], b, i + 3, d) IN
+       IF r[1] < 0 THEN r ELSE SkipFields(b, i + 3 + r[1], d, acc + 3 + r[1], MaxI(md, r[2]))
 
-Skip(wt, b, i, d) ==
-  IF wt \notin LegalTypes THEN -1
-  ELSE IF d <= 0 THEN -2
-  ELSE IF FixedW(wt) > 0 THEN (IF Remain(b, i) < FixedW(wt) THEN -1 ELSE FixedW(wt))
-  ELSE IF wt = TSTRING THEN SkipStr(b, i)
-  ELSE IF wt = TSTRUCT THEN SkipFields(b, i, d - 1, 0)
+Plus1(r) == IF r[1] < 0 THEN r ELSE <<r[1], r[2] + 1>>
+
+SkipD(wt, b, i, d) ==
+  IF wt \notin LegalTypes THEN <<-1, 0>>
+  ELSE IF d <= 0 THEN <<-2, 0>>
+  ELSE IF FixedW(wt) > 0 THEN (IF Remain(b, i) < FixedW(wt) THEN <<-1, 0>> ELSE <<FixedW(wt), 0>>)
+  ELSE IF wt = TSTRING THEN <<SkipStr(b, i), 0>>
+  ELSE IF wt = TSTRUCT THEN Plus1(SkipFields(b, i, d - 1, 0, 0))
   ELSE IF wt = TMAP THEN
-       IF Remain(b, i) < 6 THEN -1
+       IF Remain(b, i) < 6 THEN <<-1, 0>>
        ELSE LET n == S32(b, i + 2) IN
-            IF n < 0 THEN -1
-            ELSE IF n = 0 THEN 6
+            IF n < 0 THEN <<-1, 0>>
+            ELSE IF n = 0 THEN <<6, 1>>
             ELSE IF FixedW(b[i]) > 0 /\ FixedW(b[i + 1]) > 0 THEN
-                 (IF n > (Remain(b, i) - 6) \div (FixedW(b[i]) + FixedW(b[i + 1])) THEN -1
-                  ELSE 6 + n * (FixedW(b[i]) + FixedW(b[i + 1])))
-            ELSE IF n > Remain(b, i) - 6 THEN -1   \* every pair needs >= 2 bytes
-            ELSE SkipPairs(b[i], b[i + 1], b, i + 6, n, d - 1, 6)
+                 (IF n > (Remain(b, i) - 6) \div (FixedW(b[i]) + FixedW(b[i + 1])) THEN <<-1, 0>>
+                  ELSE <<6 + n * (FixedW(b[i]) + FixedW(b[i + 1])), 1>>)
+            ELSE IF n > Remain(b, i) - 6 THEN <<-1, 0>>   \* every pair needs >= 2 bytes
+            ELSE Plus1(SkipPairs(b[i], b[i + 1], b, i + 6, n, d - 1, 6, 0))
   ELSE \* list or set
-       IF Remain(b, i) < 5 THEN -1
+       IF Remain(b, i) < 5 THEN <<-1, 0>>
        ELSE LET n == S32(b, i + 1) IN
-            IF n < 0 THEN -1
-            ELSE IF n = 0 THEN 5
+            IF n < 0 THEN <<-1, 0>>
+            ELSE IF n = 0 THEN <<5, 1>>
             ELSE IF FixedW(b[i]) > 0 THEN
-                 (IF n > (Remain(b, i) - 5) \div FixedW(b[i]) THEN -1 ELSE 5 + n * FixedW(b[i]))
-            ELSE IF n > Remain(b, i) - 5 THEN -1
-            ELSE SkipElems(b[i], b, i + 5, n, d - 1, 5)
+                 (IF n > (Remain(b, i) - 5) \div FixedW(b[i]) THEN <<-1, 0>> ELSE <<5 + n * FixedW(b[i]), 1>>)
+            ELSE IF n > Remain(b, i) - 5 THEN <<-1, 0>>
+            ELSE Plus1(SkipElems(b[i], b, i + 5, n, d - 1, 5, 0))
 
-(***************************************************************************)
-(* Nesting depth of the value at b[i] (assumed well-formed): scalars and   *)
-(* strings 0... a struct counts 1 plus the deepest field, a container 1    *)
-(* plus the deepest element.  Used only to decide whether a message lies   *)
-(* inside the "always accepted" region of the depth property.              *)
-(***************************************************************************)
-RECURSIVE Depth(_, _, _), DepthElems(_, _, _, _, _), DepthPairs(_, _, _, _, _, _), DepthFields(_, _, _)
-
-DepthElems(wt, b, i, n, acc) ==
-  IF n = 0 THEN acc
-  ELSE DepthElems(wt, b, i + Skip(wt, b, i, 100000), n - 1, MaxI(acc, Depth(wt, b, i)))
-
-DepthPairs(kt, vt, b, i, n, acc) ==
-  IF n = 0 THEN acc
-  ELSE LET rk == Skip(kt, b, i, 100000)
-           rv == Skip(vt, b, i + rk, 100000) IN
-       DepthPairs(kt, vt, b, i + rk + rv, n - 1,
-                  MaxI(acc, MaxI(Depth(kt, b, i), Depth(vt, b, i + rk))))
-
-DepthFields(b, i, acc) ==
-  IF b[i] = TSTOP THEN acc
-  ELSE DepthFields(b, i + 3 + Skip(b[i], b, i + 3, 100000), MaxI(acc, Depth(b[i], b, i + 3)))
-
-Depth(wt, b, i) ==
-  IF FixedW(wt) > 0 \/ wt = TSTRING THEN 0
-  ELSE IF wt = TSTRUCT THEN 1 + DepthFields(b, i, 0)
-  ELSE IF wt = TMAP THEN
-       LET n == S32(b, i + 2) IN
-       IF n = 0 \/ (FixedW(b[i]) > 0 /\ FixedW(b[i + 1]) > 0) \/
-          (b[i] = TSTRING /\ b[i+1] = TSTRING) THEN 1
-       ELSE 1 + DepthPairs(b[i], b[i + 1], b, i + 6, n, 0)
-  ELSE LET n == S32(b, i + 1) IN
-       IF n = 0 \/ FixedW(b[i]) > 0 \/ b[i] = TSTRING THEN 1
-       ELSE 1 + DepthElems(b[i], b, i + 5, n, 0)
+Skip(wt, b, i, d) == SkipD(wt, b, i, d)[1]
 
 \* ---- byte-tuple helpers ---------------------------------------------------
 \* does needle occur as a contiguous subsequence of hay
